@@ -118,7 +118,16 @@ def _nominal_and_modifiers_from_spec(modifier_set, config, spec, batch_size):
     helper = {}
     _keys_seen = set()
     for c in spec['channels']:
+        if c['name'] in helper:
+            raise exceptions.InvalidModel(
+                f"Trying to add channel {c['name']} but another channel exists with the same name."
+            )
+        helper[c['name']] = {}
         for s in c['samples']:
+            if s['name'] in helper[c['name']]:
+                raise exceptions.InvalidModel(
+                    f"Trying to add sample {s['name']} to channel {c['name']} but another sample exists with the same name."
+                )
             moddict = {}
             for x in s['modifiers']:
                 if x['type'] not in modifier_set:
@@ -126,6 +135,10 @@ def _nominal_and_modifiers_from_spec(modifier_set, config, spec, batch_size):
                         f'{x["type"]} not among {list(modifier_set)}'
                     )
                 key = f"{x['type']}/{x['name']}"
+                if key in moddict and moddict[key] != x:
+                    raise exceptions.InvalidModel(
+                        f"Trying to add modifier {key} on {s['name']} sample in {c['name']} channel but it is already defined on that sample with different data."
+                    )
                 # check if the modifier to be built is allowed to be shared
                 if not modifiers_builders[x['type']].is_shared and (
                     key in _keys_seen or key in moddict
@@ -135,7 +148,7 @@ def _nominal_and_modifiers_from_spec(modifier_set, config, spec, batch_size):
                     )
 
                 moddict[key] = x
-            helper.setdefault(c['name'], {})[s['name']] = (s, moddict)
+            helper[c['name']][s['name']] = (s, moddict)
             # add in all keys seen
             _keys_seen.update(moddict)
 
